@@ -510,7 +510,18 @@ def gen_call(ch, p, side, allow_close, allow_bad):
            (2, 'ping'), (2, 'wu'), (3, 'ack'), (2, 'settings'), (2, 'prio' if client else 'push'),
            (1, 'info' if not client else 'open'), (1, 'altsvc' if not client else 'data'),
            (3, 'bad'), (1, 'close')]
+    # state-dependent bias: while a promised stream is still reserved, settings changes that must reach it
+    # (INITIAL_WINDOW_SIZE, MAX_FRAME_SIZE) and its response become more likely
+    reserved = [s_ for s_, st_ in p.m['s'].streams.items() if st_.state == M.RES_LOCAL]
+    only_reserved = False
+    forced_keys = None
+    if reserved:
+        ops += [(5, 'settings-reserved')] if client else [(5, 'respond-reserved')]
     op = ch.weighted(ops)
+    if op == 'settings-reserved':
+        op, forced_keys = 'settings', [4, 4, 5]
+    if op == 'respond-reserved':
+        op, only_reserved = 'respond', True
     if op == 'bad' and not allow_bad:
         op = 'data'
     if op == 'close' and not allow_close:
@@ -559,7 +570,7 @@ def gen_call(ch, p, side, allow_close, allow_bad):
             if kind == 'trailers':
                 return pos == 'trailers'
             return pos == 'response'
-        sid = pick_sid(ch, p, side, fits)
+        sid = pick_sid(ch, p, side, (lambda st: fits(st) and st.state == M.RES_LOCAL) if only_reserved else fits)
         if sid is None:
             return
         hk = {'final': 'final-response', 'info': 'info', 'trailers': 'trailers'}[kind]
@@ -598,8 +609,21 @@ def gen_call(ch, p, side, allow_close, allow_bad):
             p.do_call(side, 'end_stream', (sid,), {}, verdict, what, ok)
             return
         es = ch.chance(48)
-        n = min(p.max_data, ch.weighted([(8, ch.int(0, 40)), (2, 16384), (1, 16385), (2, ch.int(1000, 70000)), (1, 65535)]))
+        n = min(p.max_data, ch.weighted([(8, ch.int(0, 40)), (2, 16384), (1, 16385), (2, ch.int(1000, 70000)), (1, 65535),
+                                         (4, -1), (1, -2)]))
         pad = ch.pick([None, None, None, 0, 1, 7, 255])
+        if n < 0:
+            # fill the window exactly as the sender sees it (-2: one byte more, which must raise): if the
+            # sender's view is too generous the receiver will refuse the frame
+            try:
+                w = p.ep[side].c.local_flow_control_window(sid)
+                mf = p.ep[side].c.max_outbound_frame_size
+            except Exception:   # noqa: BLE001 - a query that raises is a dont-care here, the send decides
+                w, mf = 0, 16384
+            over = 0 if pad is None else pad + 1
+            n = max(0, min(w, mf) - over) + (1 if n == -2 else 0)
+            n = min(n, p.max_data)
+            p.stats['data-fills-window'] += 1
         body = bytes((i * 7 + n) & 0xff for i in range(min(n, 64))) + b'x' * max(0, n - 64)
         verdict, what = m.send_data_verdict(sid, es)
         if verdict != M.PERMIT:
@@ -668,7 +692,7 @@ def gen_call(ch, p, side, allow_close, allow_bad):
         if p.outstanding[side]:
             p.r.excluded['second-outstanding-settings-frame-K02'] += 1
             return
-        keys = [1, 3, 4, 5, 6] + ([2] if client else [8])
+        keys = forced_keys or [1, 3, 4, 5, 6] + ([2] if client else [8])
         changes = {}
         for _ in range(ch.int(1, 3)):
             k = ch.pick(keys)
